@@ -11,6 +11,7 @@ import (
 
 	ap "github.com/go-ap/activitypub"
 
+	"verif/internal/canon"
 	"verif/internal/engine"
 	"verif/internal/sites"
 	"verif/internal/universe"
@@ -120,6 +121,41 @@ type c08Helper struct {
 	on     func(ap.Item, func(any)) error
 }
 
+// c08OnErr calls the On helper of h with a callback that runs fn and then returns ret.
+func c08OnErr(h c08Helper, it ap.Item, fn func(any), ret error) error {
+	switch h.name {
+	case "Object":
+		return ap.OnObject(it, func(p *ap.Object) error { fn(p); return ret })
+	case "Activity":
+		return ap.OnActivity(it, func(p *ap.Activity) error { fn(p); return ret })
+	case "IntransitiveActivity":
+		return ap.OnIntransitiveActivity(it, func(p *ap.IntransitiveActivity) error { fn(p); return ret })
+	case "Question":
+		return ap.OnQuestion(it, func(p *ap.Question) error { fn(p); return ret })
+	case "Actor":
+		return ap.OnActor(it, func(p *ap.Actor) error { fn(p); return ret })
+	case "Collection":
+		return ap.OnCollection(it, func(p *ap.Collection) error { fn(p); return ret })
+	case "CollectionPage":
+		return ap.OnCollectionPage(it, func(p *ap.CollectionPage) error { fn(p); return ret })
+	case "OrderedCollection":
+		return ap.OnOrderedCollection(it, func(p *ap.OrderedCollection) error { fn(p); return ret })
+	case "OrderedCollectionPage":
+		return ap.OnOrderedCollectionPage(it, func(p *ap.OrderedCollectionPage) error { fn(p); return ret })
+	case "Place":
+		return ap.OnPlace(it, func(p *ap.Place) error { fn(p); return ret })
+	case "Profile":
+		return ap.OnProfile(it, func(p *ap.Profile) error { fn(p); return ret })
+	case "Relationship":
+		return ap.OnRelationship(it, func(p *ap.Relationship) error { fn(p); return ret })
+	case "Tombstone":
+		return ap.OnTombstone(it, func(p *ap.Tombstone) error { fn(p); return ret })
+	case "Link":
+		return ap.OnLink(it, func(p *ap.Link) error { fn(p); return ret })
+	}
+	return fmt.Errorf("no such helper")
+}
+
 func c08Helpers() []c08Helper {
 	return []c08Helper{
 		{"Object", "Object", func(i ap.Item) (any, error) { return ap.ToObject(i) }, func(i ap.Item, f func(any)) error {
@@ -185,6 +221,27 @@ func c08TermIndex(t reflect.Type) map[string]int {
 		}
 	}
 	return m
+}
+
+// c08DatedMembers gives the members of a collection value dated objects in oldest-first order (so that anything that "tidies"
+// the members while making a view - sorting, de-duplicating - shows as a change of the value).
+func c08DatedMembers(x any) {
+	rv := reflect.ValueOf(x)
+	if rv.Kind() != reflect.Pointer || rv.IsNil() {
+		return // value forms are built by the recipe; only pointer sources are adjusted in place
+	}
+	for _, name := range []string{"Items", "OrderedItems"} {
+		f := rv.Elem().FieldByName(name)
+		if !f.IsValid() {
+			continue
+		}
+		var col ap.ItemCollection
+		for i := 0; i < 4; i++ {
+			col = append(col, &ap.Object{ID: ap.IRI(fmt.Sprintf("https://example.com/dated/%d", i)), Type: ap.NoteType, Published: universe.T1.Add(time.Duration(i) * time.Hour)})
+		}
+		col = append(col, col[1]) // and a repeated member
+		f.Set(reflect.ValueOf(col))
+	}
 }
 
 // c08Containment: a view that is the SAME memory as the value it was made from (a reinterpretation, not a copy) must not be a
@@ -272,16 +329,23 @@ func c08Run(c *engine.Ctx) {
 						rec := c08Saturated(src)
 						rec.Value = form == "value"
 						x := rec.Build()
+						c08DatedMembers(x)
 						it, _ := x.(ap.Item)
 						var view any
 						var err error
 						called := false
+						before := canon.Of(x, canon.Raw)
 						if via == "To" {
 							view, err = h.to(it)
 						} else {
 							err = h.on(it, func(p any) { view, called = p, true })
 						}
 						t.Ops(1)
+						// making a view (and calling back with it) is not a write: the value reads exactly as before
+						if after := canon.Of(x, canon.Raw); !canon.Equal(before, after) {
+							ds := canon.Diff(before, after)
+							t.Fail(class+"|"+canon.LastTerm(ds[0].Path)+"|conversion-modified-the-value", "the value changed while the view was made: %s", ds[0])
+						}
 						vnil := view == nil || reflect.ValueOf(view).IsNil()
 						if err != nil {
 							t.Distinct(false)
@@ -320,7 +384,7 @@ func c08Run(c *engine.Ctx) {
 							}
 							shared++
 							vf, sf := vv.Field(vi), sv.Field(si)
-							if vf.Type() != sf.Type() && !(vf.Kind() == reflect.Interface && sf.Kind() == reflect.Interface && vf.Type().NumMethod() == sf.Type().NumMethod() && vf.Type().Implements(sf.Type()) && sf.Type().Implements(vf.Type())) {
+							if vf.Type() != sf.Type() {
 								t.Fail(class+"|"+term+"|type-differs", "shared property %s is a %s in the view and a %s in the source", term, vf.Type(), sf.Type())
 								continue
 							}
@@ -335,6 +399,33 @@ func c08Run(c *engine.Ctx) {
 						}
 						if form != "pointer" {
 							return
+						}
+						// a callback that writes through the view and then FAILS: the error comes back, and what was written stays
+						// written (a view is the value, not a transaction on a copy)
+						if via == "On" {
+							marker := ap.NaturalLanguageValues{{Ref: "-", Value: ap.Content("written before the callback failed")}}
+							sentinel := fmt.Errorf("callback failed after writing")
+							var nameField reflect.Value
+							gotErr := h.on(it, func(p any) {
+								nameField = reflect.ValueOf(p).Elem().FieldByName("Name")
+								if nameField.IsValid() {
+									nameField.Set(reflect.ValueOf(marker))
+								}
+							})
+							_ = gotErr
+							errAfter := c08OnErr(h, it, func(p any) {
+								f := reflect.ValueOf(p).Elem().FieldByName("Name")
+								if f.IsValid() {
+									f.Set(reflect.ValueOf(marker))
+								}
+							}, sentinel)
+							if errAfter != sentinel {
+								t.Fail(class+"|callback-error-not-returned", "the callback's error came back as %v", errAfter)
+							}
+							if sn := sv.FieldByName("Name"); sn.IsValid() && !reflect.DeepEqual(sn.Interface(), marker) {
+								t.Fail(class+"|name|write-before-error-not-seen", "a write through the view is not seen by the original when the callback then returns an error")
+							}
+							t.Ops(2)
 						}
 						// write-through, both directions, on every shared property
 						g := &universe.Gen{}
